@@ -112,9 +112,15 @@ Definition dump_tbl (t : tbl) : val :=
 Definition dedup_sorted (l : list N) : list N :=
   fold_right (fun x acc => match acc with y :: _ => if x =? y then acc else x :: acc | [] => [x] end) [] l.
 
+Fixpoint dedup_pairs (l : list (hash * hash)) : list (hash * hash) :=
+  match l with
+  | [] => []
+  | p :: tl => if existsb (fun q => (fst q =? fst p) && (snd q =? snd p)) tl then dedup_pairs tl else p :: dedup_pairs tl
+  end.
+
 Definition observe (s : mstate) : val :=
   VL [dump_tbl (ms_th s); dump_tbl (ms_tt s); vlist VN (dedup_sorted (sortN (ms_sh s)));
-      vlist VN (dedup_sorted (sortN (map fst (ms_st s))))].
+      VL (map snd (fold_right ins_row [] (map (fun p => (fst p, VL [VN (fst p); VN (snd p)])) (dedup_pairs (ms_st s)))))].
 
 Fixpoint run_events (s : mstate) (evs : list fev) : list val :=
   match evs with
